@@ -303,6 +303,10 @@ StringDictionaryRPHTFC::StringDictionaryRPHTFC(IteratorDictString *it,
 
   tableHT = builderHT->getTable();
   delete builderHT;
+
+  // The coder also decodes: give it the table, as load() does
+  delete coderHT;
+  coderHT = new StatCoder(tableHT, codewordsHT);
 }
 
 unsigned long StringDictionaryRPHTFC::locate(uchar *str, uint strLen) {
